@@ -1,6 +1,6 @@
 """What is claimed, per property. A property appears in CLAIMS only once its checker exists and
 passes on the unchanged tree."""
-FIX_COMMITS = ["4e9e139", "5ee6583", "744f482", "eb93a13", "ceb972a", "a924d81", "2127bcd"]
+FIX_COMMITS = ["4e9e139", "5ee6583", "744f482", "eb93a13", "ceb972a", "a924d81", "2127bcd", "d45c8ce"]
 
 CLAIMS = {
     "C09": dict(
@@ -77,6 +77,17 @@ CLAIMS = {
         ref="DESIGN.md §3 C15",
         note="the least-fixpoint argument is a paper induction over the update rule; graph coherence is C14",
         technique="static analysis: must-call / who-may-call rules and sibling cross-check of (source, field) provenance on resolved ASTs",
+    ),
+    "C17": dict(
+        text="Decides (a) field classification: the WrappedField predicates are evaluated abstractly from source over every category "
+             "of the supported annotation grammar and compared cell by cell with what the annotation dictates (exhaustive over the "
+             "grammar's categories); (b) the two relation builders insert an edge for every mapped direct base / mapped field endpoint "
+             "with the right orientation, skipping only unmapped ends, public fields only; (c) no non-constructive method of the diagram "
+             "mutates state reachable from self (effect analysis with a shallow-copy alias model). Run-time forward-reference resolution "
+             "is not decided.",
+        ref="DESIGN.md §3 C17, appendix C",
+        note="trusts the typing facts tabled in kverif/typemodel.py (origin/args per category) and copy.copy's sharing semantics",
+        technique="static analysis: abstract evaluation over a finite annotation-category domain, CFG must-pass-through, effect/alias analysis",
     ),
 }
 
